@@ -100,3 +100,73 @@ func FieldByName(p *Path, o *Obj, name string) (Value, bool) {
 	}
 	return nil, false
 }
+
+// Resolve follows a result path such as "asc.Object", "SequenceParameterSetNALUnits[1].Data" or
+// "NALUHeader.NALUType" starting at value v (pointers are dereferenced implicitly).
+func Resolve(p *Path, v Value, path string) (Value, bool) {
+	cur := v
+	for path != "" {
+		// next token
+		var tok string
+		if path[0] == '[' {
+			j := strings.Index(path, "]")
+			tok, path = path[:j+1], path[j+1:]
+		} else {
+			j := strings.IndexAny(path, ".[")
+			if j < 0 {
+				tok, path = path, ""
+			} else {
+				tok, path = path[:j], path[j:]
+			}
+		}
+		path = strings.TrimPrefix(path, ".")
+		if tok == "" {
+			continue
+		}
+		if tok[0] == '[' {
+			var i int
+			fmt.Sscanf(tok, "[%d]", &i)
+			sl, ok := cur.(*Slice)
+			if !ok || sl.Obj == nil || sl.Obj.Kind != OElems {
+				return nil, false
+			}
+			idx := int(sl.Off.C) + i
+			if !sl.Off.IsConst() || idx < 0 || idx >= len(sl.Obj.Elems) {
+				return nil, false
+			}
+			cur = sl.Obj.Elems[idx]
+			continue
+		}
+		var o *Obj
+		switch x := cur.(type) {
+		case *Ptr:
+			o = x.Obj
+			if x.Field >= 0 {
+				if a, ok := o.Fields[x.Field].(*Agg); ok {
+					o = a.Obj
+				}
+			}
+		case *Agg:
+			o = x.Obj
+		default:
+			return nil, false
+		}
+		nv, ok := FieldByName(p, o, tok)
+		if !ok {
+			return nil, false
+		}
+		cur = nv
+	}
+	return cur, true
+}
+
+// LenOf returns the length of a slice value as a linear form.
+func LenOf(v Value) (*Lin, bool) {
+	switch x := v.(type) {
+	case *Slice:
+		return x.Len, true
+	case *NilV:
+		return LConst(0), true
+	}
+	return nil, false
+}
